@@ -281,8 +281,11 @@ func (s *c14state) compareWindow(mt *MTable, q *QResult, stage string, live, ign
 	}
 	fm := &MTable{Def: mt.Def, Rows: map[string]*MRow{}}
 	liveRows := 0
+	// (a period ending exactly at now - retention + resolution lies wholly
+	// inside the window: that happens when the clock stands on a period
+	// boundary)
 	for id, r := range mt.Rows {
-		if r.TS > live {
+		if r.TS >= live {
 			fm.Rows[id] = r
 			liveRows++
 		}
@@ -291,7 +294,7 @@ func (s *c14state) compareWindow(mt *MTable, q *QResult, stage string, live, ign
 	// expired parts); they only have to stem from accepted points
 	kept := fq.Rows[:0:0]
 	for _, r := range fq.Rows {
-		if r.TS > live {
+		if r.TS >= live {
 			kept = append(kept, r)
 			continue
 		}
